@@ -532,6 +532,7 @@ func (s *configurationStore) getApplied(ctx context.Context, id configapi.Config
 func (s *configurationStore) store(ctx context.Context, store _map.Map[string, *configapi.PathValue], values map[string]*configapi.PathValue) error {
 	prunedValues := tree.PrunePathMap(values, true)
 	transaction := store.Transaction(ctx)
+	clearedAncestors := make(map[string]bool)
 	for _, pv := range values {
 		entry, err := store.Get(ctx, pv.Path)
 		if err != nil {
@@ -541,11 +542,17 @@ func (s *configurationStore) store(ctx context.Context, store _map.Map[string, *
 			}
 			if _, ok := prunedValues[pv.Path]; ok {
 				transaction.Insert(pv.Path, pv)
+				if err := s.clearDeletedAncestors(ctx, store, transaction, values, pv, clearedAncestors); err != nil {
+					return err
+				}
 			}
 		} else if _, ok := prunedValues[pv.Path]; !ok {
 			transaction.Remove(pv.Path, _map.IfVersion(entry.Version))
 		} else if pv.Index != entry.Value.Index {
 			transaction.Update(pv.Path, pv, _map.IfVersion(entry.Version))
+			if err := s.clearDeletedAncestors(ctx, store, transaction, values, pv, clearedAncestors); err != nil {
+				return err
+			}
 		}
 	}
 	if _, err := transaction.Commit(); err != nil {
@@ -554,6 +561,43 @@ func (s *configurationStore) store(ctx context.Context, store _map.Map[string, *
 			return errors.NewConflict(err.Error())
 		}
 		return err
+	}
+	return nil
+}
+
+// clearDeletedAncestors removes the stored tombstones above a value that is being written: a value (re-)created
+// beneath a path deleted earlier revives that path, and its writer no longer holds the tombstone, so it would
+// otherwise stay in the stored map and prune the new value at the next write. Only ancestors (at path element
+// boundaries) of a value written now, which are absent from the values being stored, are looked at.
+func (s *configurationStore) clearDeletedAncestors(ctx context.Context, store _map.Map[string, *configapi.PathValue],
+	transaction _map.Transaction[string, *configapi.PathValue], values map[string]*configapi.PathValue,
+	pv *configapi.PathValue, cleared map[string]bool) error {
+	if pv.Deleted {
+		return nil
+	}
+	for i := len(pv.Path) - 1; i > 0; i-- {
+		if pv.Path[i] != '/' && pv.Path[i] != '[' {
+			continue
+		}
+		ancestor := pv.Path[:i]
+		if cleared[ancestor] {
+			continue
+		}
+		cleared[ancestor] = true
+		if _, ok := values[ancestor]; ok {
+			continue
+		}
+		entry, err := store.Get(ctx, ancestor)
+		if err != nil {
+			err = errors.FromAtomix(err)
+			if !errors.IsNotFound(err) {
+				return err
+			}
+			continue
+		}
+		if entry.Value.Deleted {
+			transaction.Remove(ancestor, _map.IfVersion(entry.Version))
+		}
 	}
 	return nil
 }
